@@ -28,7 +28,7 @@ import re
 from .common import *
 from ..callgraph import CallGraph
 from ..writers import field_writers
-from ..tables import decided
+from ..tables import decided, canon, cdec
 
 LEVEL = 'other'
 HOP_SOURCES = {'trippy_core::state::Hop::addrs': 0, 'trippy_core::state::Hop::addrs_with_counts': 0}
@@ -582,9 +582,10 @@ def run(chk, tier):
         if some != 1:
             return None
         x = 'field:0(%s)' % PV
-        pos = decided(decisions, 'Gt(%s, 0)' % x)
-        if pos is None:
-            pos = decided(decisions, 'Ne(%s, 0)' % x)       # unsigned: > 0 is != 0
+        # unsigned: x > 0, x >= 1, x != 0, 0 < x … are one decision (canonical form)
+        k_, v_ = canon('Gt(%s, 0)' % x, 1)
+        cd_ = cdec(decisions)
+        pos = None if cd_.get(k_) not in (0, 1) else int(cd_[k_] == v_)
         if pos is None:
             for a_, v_ in dec:
                 if a_ == x:                                   # an integer match on the value itself
